@@ -26,6 +26,7 @@ type Alphabet struct {
 	Cancellers   []string
 	MaxK         int
 	Donate       []Op // donation templates (AID filled per auction)
+	EntryIDMismatch bool // also offer allow-list entries whose own auction_id field names another auction
 	ModRejects   bool // include one invalid modification per rejection reason for every bid
 	MsgAddAllow  bool // include MsgAddAllowedBidder by every bidder at every state (C10)
 	Rejects      bool // include representative invalid ops while the auction is waiting or open
@@ -64,6 +65,10 @@ func (al *Alphabet) Menu(st *ref.State, bud Budget) []Op {
 					for _, c := range al.AllowCaps {
 						ops = append(ops, Op{Kind: "add_allowed", AID: a.ID, Bidder: b, Max: c, Budget: "allow"})
 					}
+					if al.EntryIDMismatch {
+						// the external module fills the entry's own auction_id field with another auction's id
+						ops = append(ops, Op{Kind: "add_allowed", AID: a.ID, Bidder: b, Max: al.AllowCaps[0], Budget: "allow", EntryAIDOther: true})
+					}
 				} else {
 					for _, c := range al.UpdateCaps {
 						if cur.Max.Cmp(big0(c)) != 0 {
@@ -74,7 +79,9 @@ func (al *Alphabet) Menu(st *ref.State, bud Budget) []Op {
 			}
 		}
 		if al.MsgAddAllow {
-			for _, b := range al.Bidders {
+			// signed by every bidder, by an outsider, and by the auctioneers (an account may hold two roles)
+			signers := append(append([]string{}, al.Bidders...), "auc1", "auc2")
+			for _, b := range signers {
 				ops = append(ops, Op{Kind: "msg_add_allowed", AID: a.ID, Bidder: b, Max: "1", Budget: "msgallow"})
 			}
 		}
